@@ -42,6 +42,11 @@ type Spec struct {
 	// "export_db.go.txt") overlaid into THAT package as zz_verif_<id>_<file>.go; used to export
 	// unexported functions of a second package to the harness package.
 	ExtraOverlay map[string]string `json:"extra_overlay"`
+	// NativeModulePatch: module path -> (file relative to the module root -> file in harness/<id>/).
+	// NATIVE replay build only: the module is copied to a scratch directory, the listed files are
+	// replaced, and the replay binary is built with -modfile pointing at that copy (the symbolic
+	// run uses "models" for the same callees). Files in the module cache cannot be overlaid.
+	NativeModulePatch map[string]map[string]string `json:"native_module_patch"`
 }
 
 type EntrySpec struct {
@@ -211,7 +216,12 @@ func buildOverlay(spec *Spec, forTest bool) (map[string][]byte, error) {
 			sb.WriteString("\t\"testing/synctest\"\n")
 		}
 		sb.WriteString(")\n\nfunc TestVerifReplay(t *testing.T) {\n\tentries := map[string]func(){\n")
+		seenEntry := map[string]bool{}
 		for _, e := range spec.Entries {
+			if seenEntry[e.Name] {
+				continue // the same entry may be listed once per tier
+			}
+			seenEntry[e.Name] = true
 			fmt.Fprintf(&sb, "\t\t%q: %s,\n", e.Name, e.Name)
 		}
 		sb.WriteString("\t}\n\tname := os.Getenv(\"VERIF_ENTRY\")\n\tf := entries[name]\n\tif f == nil {\n\t\tt.Fatalf(\"unknown entry %q\", name)\n\t}\n")
@@ -222,6 +232,17 @@ func buildOverlay(spec *Spec, forTest bool) (map[string][]byte, error) {
 		}
 		sb.WriteString("\tfmt.Println(\"VERIF-DONE\")\n}\n")
 		ov[filepath.Join(dst, "zz_verif_zmain_test.go")] = []byte(sb.String())
+		// instrumented copies of the package's files (scheduling points for forced-schedule replays)
+		if spec.Synctest && curProgram != nil && os.Getenv("VERIF_NO_INSTRUMENT") == "" {
+			files, err := curProgram.InstrumentPackage(spec.Package, map[string]bool{"zz_verif_api.go": true})
+			if err == nil {
+				for name, content := range files {
+					ov[name] = content
+				}
+			} else {
+				fmt.Fprintln(os.Stderr, "instrumentation failed (replaying without forced schedules):", err)
+			}
+		}
 	}
 	return ov, nil
 }
@@ -236,9 +257,11 @@ type ReplayFile struct {
 	Detail   string         `json:"detail,omitempty"`
 	Pos      string         `json:"pos,omitempty"`
 	Trace    []string       `json:"trace,omitempty"`
+	Sched    []int          `json:"sched,omitempty"`
 }
 
 // replay binary: the package's test binary with the harness overlaid, built once per run.
+var curProgram *sym.Program
 var replayBin, replayTmp, replayBuildOut string
 var replayBuildErr error
 
@@ -272,7 +295,17 @@ func buildReplayBinary(spec *Spec) (string, error) {
 	ovPath := filepath.Join(tmp, "overlay.json")
 	os.WriteFile(ovPath, ovJSON, 0o644)
 	bin := filepath.Join(tmp, "replay.test")
-	cmd := exec.Command("go", "test", "-c", "-vet=off", "-overlay", ovPath, "-o", bin, "./"+spec.Dir)
+	args := []string{"test", "-c", "-vet=off", "-overlay", ovPath, "-o", bin}
+	if len(spec.NativeModulePatch) > 0 {
+		mf, err := patchedModfile(spec, tmp)
+		if err != nil {
+			replayBuildErr = fmt.Errorf("native_module_patch: %v", err)
+			return "", replayBuildErr
+		}
+		args = append(args, "-modfile="+mf)
+	}
+	args = append(args, "./"+spec.Dir)
+	cmd := exec.Command("go", args...)
 	cmd.Dir = repoDir
 	cmd.Env = goEnv()
 	out, err := cmd.CombinedOutput()
@@ -283,6 +316,56 @@ func buildReplayBinary(spec *Spec) (string, error) {
 	}
 	replayBin = bin
 	return bin, nil
+}
+
+// patchedModfile copies each module named in spec.NativeModulePatch into tmp, replaces the listed
+// files and returns an alternative go.mod (plus go.sum next to it) that points at the copies.
+func patchedModfile(spec *Spec, tmp string) (string, error) {
+	gomod, err := os.ReadFile(filepath.Join(repoDir, "go.mod"))
+	if err != nil {
+		return "", err
+	}
+	extra := ""
+	n := 0
+	for mod, files := range spec.NativeModulePatch {
+		c := exec.Command("go", "list", "-m", "-f", "{{.Dir}}", mod)
+		c.Dir = repoDir
+		c.Env = goEnv()
+		out, err := c.Output()
+		if err != nil {
+			return "", fmt.Errorf("go list -m %s: %v", mod, err)
+		}
+		src := strings.TrimSpace(string(out))
+		dst := filepath.Join(tmp, fmt.Sprintf("mod%d", n))
+		n++
+		if err := os.CopyFS(dst, os.DirFS(src)); err != nil {
+			return "", err
+		}
+		filepath.Walk(dst, func(p string, fi os.FileInfo, err error) error {
+			if err == nil {
+				os.Chmod(p, fi.Mode()|0o200)
+			}
+			return nil
+		})
+		for rel, hf := range files {
+			b, err := os.ReadFile(filepath.Join(verifDir, "harness", spec.HDir, hf))
+			if err != nil {
+				return "", err
+			}
+			if err := os.WriteFile(filepath.Join(dst, rel), b, 0o644); err != nil {
+				return "", err
+			}
+		}
+		extra += fmt.Sprintf("\nreplace %s => %s\n", mod, dst)
+	}
+	mf := filepath.Join(tmp, "go.mod")
+	if err := os.WriteFile(mf, append(gomod, extra...), 0o644); err != nil {
+		return "", err
+	}
+	if sum, err := os.ReadFile(filepath.Join(repoDir, "go.sum")); err == nil {
+		os.WriteFile(filepath.Join(tmp, "go.sum"), sum, 0o644)
+	}
+	return mf, nil
 }
 
 func cleanupReplay() {
@@ -349,7 +432,18 @@ func replayCmd(path string) int {
 		return 2
 	}
 	abs, _ := filepath.Abs(path)
+	if len(rf.Sched) > 0 && spec.Synctest {
+		// forced-schedule replays need the instrumented sources, hence the type-checked program
+		if ov, err := buildOverlay(spec, false); err == nil {
+			if P, err := sym.Load(repoDir, ov, "./"+spec.Dir); err == nil {
+				curProgram = P
+			}
+		}
+	}
 	outcomes, raw, err := nativeReplay(spec, &rf, abs)
+	if os.Getenv("VERIF_DEBUG") != "" {
+		fmt.Println(raw)
+	}
 	fmt.Printf("replay %s entry=%s expect=%q\n", rf.Property, rf.Entry, rf.Expect)
 	for _, o := range outcomes {
 		fmt.Println("  native outcome:", o)
@@ -448,6 +542,7 @@ func checkSpec(hdir, prop, tier, only string, verbose bool, seed int64, acc *acc
 		return 2
 	}
 	loadS := time.Since(tl).Seconds()
+	curProgram = P
 	tierN := 0
 	if tier == "thorough" {
 		tierN = 1
@@ -472,7 +567,7 @@ func checkSpec(hdir, prop, tier, only string, verbose bool, seed int64, acc *acc
 		}
 		cfg := sym.Config{Unwind: e.Unwind, MaxPaths: e.MaxPaths, MaxPreempt: e.MaxPreempt, Solver: spec.Solver, InitPkgs: spec.Init,
 			Skip: set(spec.Skip), Havoc: set(spec.Havoc), Models: spec.Models, Seed: seed, Tier: tierN, MapOrderChoice: e.MapOrder,
-			TimeoutMS: e.TimeoutMS, MaxSymAlloc: e.MaxSymAlloc, WitnessModels: true, Workers: 12}
+			TimeoutMS: e.TimeoutMS, MaxSymAlloc: e.MaxSymAlloc, WitnessModels: true, Workers: 12, InstrPkg: spec.Package}
 		if e.Solver != "" {
 			cfg.Solver = e.Solver
 		}
@@ -515,7 +610,7 @@ func checkSpec(hdir, prop, tier, only string, verbose bool, seed int64, acc *acc
 		// findings (recorded classes)
 		for _, id := range sortedKeys(r.Findings) {
 			f := r.Findings[id]
-			rf := &ReplayFile{Harness: hdir, Property: prop, Entry: e.Name, Expect: "finding " + id, Values: f.Values, Pos: f.Pos}
+			rf := &ReplayFile{Harness: hdir, Property: prop, Entry: e.Name, Expect: "finding " + id, Values: f.Values, Pos: f.Pos, Sched: f.Sched}
 			path := writeReplay(prop, rf)
 			ok := e.NoReplay
 			if !e.NoReplay {
@@ -549,7 +644,7 @@ func checkSpec(hdir, prop, tier, only string, verbose bool, seed int64, acc *acc
 				continue
 			}
 			tried[v.ID]++
-			rf := &ReplayFile{Harness: hdir, Property: prop, Entry: e.Name, Expect: "violated " + v.ID, Values: v.Values, Detail: v.Detail, Pos: v.Pos, Trace: v.Trace}
+			rf := &ReplayFile{Harness: hdir, Property: prop, Entry: e.Name, Expect: "violated " + v.ID, Values: v.Values, Detail: v.Detail, Pos: v.Pos, Trace: v.Trace, Sched: v.Sched}
 			path := writeReplay(prop, rf)
 			os.WriteFile(strings.TrimSuffix(path, ".json")+".smt2", []byte(v.Script), 0o644)
 			ok := e.NoReplay
